@@ -6,21 +6,7 @@ Require Import QV.C07.Model QV.C07.Spec.
 Import ListNotations.
 Open Scope Q_scope.
 
-(* x occurs free in e *)
-Fixpoint fvb (x : var) (e : expr) {struct e} : bool :=
-  match e with
-  | EC _ => false
-  | EV y => N.eqb y x
-  | EAdd a b | ESub a b | EMul a b | EDiv a b | EMax a b => fvb x a || fvb x b
-  | ENeg a | ECeil a | EFloor a => fvb x a
-  | ESum i lo hi body => fvb x lo || fvb x hi || (negb (N.eqb x i) && fvb x body)
-  | EIfLe a b u v => fvb x a || fvb x b || fvb x u || fvb x v
-  | ELet bs body =>
-      (fix any (l : list (var * expr)) : bool :=
-         match l with [] => false | (_, e') :: r => fvb x e' || any r end) bs
-      || (negb ((fix bound (l : list (var * expr)) : bool :=
-                   match l with [] => false | (y, _) :: r => N.eqb x y || bound r end) bs) && fvb x body)
-  end.
+(* `fvb x e` (x occurs free in e) is defined in Model.v: ForLoopPT._sum_index looks at the range's parameter names *)
 
 Definition memb (c : chan) (l : list chan) : bool := existsb (N.eqb c) l.
 Fixpoint nodupb (l : list chan) : bool := match l with [] => true | c :: r => negb (memb c r) && nodupb r end.
@@ -46,16 +32,15 @@ Definition scalar_ok (s : scalar) (cs : list chan) : bool :=
   | SMap m => nodupb (dkeys m) && forallb (fun c => memb c cs) (dkeys m)   (* ValueError otherwise (constructor) *)
   end.
 
-(* What the constructors guarantee (one clause is a domain restriction instead, see ForLoopPT):
+(* What the constructors guarantee:
    - channel identifiers of a template are a set (Python dict/set)                          [nodupb (channels p)]
      (for MappingPT: the channel mapping is injective on the kept channels; for AtomicMultiChannelPT: the
       sub-templates have disjoint channels; both are constructor checks)
    - table channels / point pulses have at least one entry; a point pulse has at least one channel
    - FunctionPT / ParallelChannelPT coefficient expressions do not mention t (the polynomial is written out in t)
    - SequencePT: all sub-templates define the same channels
-   - ForLoopPT: the loop index does not occur in the range.  NOT enforced by the constructor (round-3 comment corrected
-     in round 5): a range naming its own index is legal in the code; it is excluded from the theorems' domain here
-     (Model.loop_sum would capture) and judged by the harness' Python oracle only
+   - ForLoopPT: nothing (round 6: a range that names its own index is legal in the code and now inside the theorems'
+     domain; Model.loop_sum binds the sum over a fresh symbol in that case, as ForLoopPulseTemplate._sum_index does)
    - ParallelChannelPT: time dependent values only over an atomic template (TypeError)
    - ArithmeticPT: a scalar mapping only mentions channels of the template (ValueError); scalar / template is
      not allowed (ValueError) *)
@@ -73,7 +58,7 @@ Fixpoint wf (p : pt) : bool :=
                       match l with [] => true | q :: r => wf q && same_chans (channels q) (channels q0) && go r end) ps
       end
   | Rep _ b => wf b
-  | For i start stop step b => negb (fvb i start) && negb (fvb i stop) && negb (fvb i step) && wf b
+  | For _ _ _ _ b => wf b
   | Map b _ _ => wf b
   | Multi ps => (fix go (l : list pt) : bool := match l with [] => true | q :: r => wf q && go r end) ps
   | Par b ov => wf b && nodupb (dkeys ov) && forallb (fun kv => no_t (snd kv)) ov
